@@ -569,7 +569,7 @@ theorem resetPre_ga (s : Pool) (v : View) (oldNum newNum : Nat) (reorg : Bool) (
   intro t
   rw [e1, pooled_iff, e2, e3]; exact h2.2 t
 
-/-- every reset (patched demotion) ends in a state that satisfies the limits, for every oracle -/
+/-- every reset (code at HEAD, `gapFix = true`) ends in a state that satisfies the limits, for every oracle -/
 theorem limits_after_reset_true (s : Pool) (v : View) (oldNum newNum : Nat) (reorg : Bool) (disc inc : List Tx) (o : ResetOracle)
     (h : GA s) : Limits (s.reset true v oldNum newNum reorg disc inc o) ∧ GA (s.reset true v oldNum newNum reorg disc inc o) := by
   rw [reset_eq_pre]
